@@ -8,6 +8,7 @@ SHAPES = {
     'U3': (0, 3, 0, 1), 'D3': (0, -3, 1, 0), 'GU2': (3, -1, 0, 0), 'GD2': (-3, 1, 0, 0),
 }
 SIGMA6 = ['U1', 'D1', 'U2w', 'D2w', 'GU', 'GD']
+SIGMA7 = SIGMA6 + ['FLAT']
 SIGMA8 = SIGMA6 + ['DOJI', 'FLAT']
 SIGMA12 = SIGMA8 + ['U3', 'D3', 'GU2', 'GD2']
 
@@ -33,6 +34,9 @@ def programs(tick, unit, kind='futures'):
     P.append(('long-2leg-keep-entry', dict(base, side='long', enter={'when': 'flat', 'legs': [[1, -1], [1, -2]]},
                                             on_open={'sl': 'all', 'tp': 'all', 'sl_d': 3, 'tp_d': 1},
                                             on_increased={'sl': 'all', 'tp': 'all', 'sl_d': 3, 'tp_d': 1}, cancel_entry=False)))
+    P.append(('long-2leg-wide-keep-entry', dict(base, side='long', enter={'when': 'flat', 'legs': [[1, -1], [1, -3]]},
+                                                 on_open={'sl': 'all', 'tp': 'all', 'sl_d': 4, 'tp_d': 2},
+                                                 on_increased={'sl': 'all', 'tp': 'all', 'sl_d': 4, 'tp_d': 2}, cancel_entry=False)))
     P.append(('long-market-breakeven', dict(base, side='long', enter={'when': 'flat', 'legs': [[2, 0]]},
                                              on_open={'sl': [[2, 2]], 'tp': [[1, 1], [1, 3]]},
                                              on_reduced={'sl': 'breakeven'}, cancel_entry=True)))
